@@ -2,7 +2,10 @@
 """Regenerates /verif/MANIFEST.json from checks.json (single source of truth for commands)."""
 import json, os
 V = os.path.dirname(os.path.dirname(os.path.abspath(__file__)))
-checks = json.load(open(os.path.join(V, "checks.json")))
+import glob
+checks = {}
+for p in sorted(glob.glob(os.path.join(V, "checks.d", "*.json"))):
+    checks.update(json.load(open(p)))
 props = [json.loads(l) for l in open(os.path.join(V, "properties.jsonl"))]
 hooks = json.load(open(os.path.join(V, "hooks.json")))
 na_reasons = json.load(open(os.path.join(V, "not_applicable.json")))
